@@ -49,7 +49,7 @@ Definition rnd_tab (tab : list (Q * num)) (q : Q) : num :=
   end.
 
 Definition outcome_tag (o : outcome) : Z :=
-  match o with Accepted => 0 | RejNoSchema => 1 | RejSchema => 2 | RejRecords => 3 | RejConvert => 4 | RejCommit => 5 end.
+  match o with Accepted => 0 | RejNoSchema => 1 | RejSchema => 2 | RejRecords => 3 | RejConvert => 4 | RejCommit => 5 | RejFile => 6 end.
 
 Definition aschema_tags (a : aschema) : list (Z * Z * bool) :=
   map (fun x => (fst (fst x), atype_tag (snd (fst x)), snd x)) a.
